@@ -47,7 +47,7 @@ RULE = ("annotation terms from the grammar {int,bool,float,str,bytes,NoneType,An
         "from VERIF_SEED related by bool/int flips under a chosen constructor or 1-3 local edits (widen, narrow, wrap, "
         "unwrap, arity, constructor swap) or unrelated; each pair: is_type_compatible vs the reference relation "
         "(one-sided when the source contains a TypeVar) + algebraic laws on is_type_compatible alone; (iii) 2-3 function "
-        "pipelines from 15 wiring templates (direct, element-wise map, whole/unlisted/colon/partial reduction, tuple outputs, "
+        "pipelines from 17 wiring templates (direct, element-wise map, whole/unlisted/colon/partial reduction, tuple outputs, "
         "renames, fan-out, join) with such annotations, constructed with validate_type_annotations on and off; "
         "non-trivial pair = not identical and neither side Any/NoAnnotation; distinct = distinct (source, target) terms / "
         "distinct (template, annotations)")
@@ -379,6 +379,10 @@ TEMPLATES = {
                 [(0, "y", 1, "y", "elementwise+tupleout"), (0, "y2", 2, "y2", "reduce-whole+tupleout")]),
     "renamed2": ([_f("f", ["x"], ["y"]), _f("g", ["a", "b"], ["z"], None, {"a": "y"})],
                  [(0, "y", 1, "a", "direct+renamed")]),
+    # the PRODUCER's outputs are renamed in the pipeline (PipeFunc(renames={own output name: pipeline name}))
+    "outren2": ([_f("f", ["x"], ["y"], None, {"y": "ya"}), _f("g", ["ya"], ["z"])], [(0, "y", 1, "ya", "direct+outrenamed")]),
+    "tuple3outren": ([_f("f", ["x"], ["y", "y2"], None, {"y": "ya", "y2": "yb"}), _f("g", ["ya"], ["z"]), _f("h", ["yb", "y2"], ["w"])],
+                     [(0, "y", 1, "ya", "direct+tupleout+outrenamed"), (0, "y2", 2, "yb", "direct+tupleout+outrenamed")]),
 }
 TEMPLATE_NAMES = sorted(TEMPLATES)
 
@@ -726,7 +730,7 @@ def finalize(agg, tier, seed):
     for t in TEMPLATE_NAMES:
         need(f"pipelines_{t}", 100 if q else 1500)
     for k in ["direct", "elementwise", "reduce-whole", "reduce-unlisted", "reduce-colon", "reduce-partial", "direct+tupleout",
-              "elementwise+tupleout", "reduce-whole+tupleout", "direct+renamed"]:
+              "elementwise+tupleout", "reduce-whole+tupleout", "direct+renamed", "direct+outrenamed", "direct+tupleout+outrenamed"]:
         need(f"edges_{k}_compatible", 25 if q else 300)
         need(f"edges_{k}_incompatible", 12 if q else 150)
     if len(agg.keys) < (30000 if q else 150000):
